@@ -118,6 +118,17 @@ Check C18_outline_children_order : forall (V : Type) (m : list (name * V)) k v,
   map fst (amap_insert m k v) = if existsb (fun k' => list_eqb k' k) (map fst m) then map fst m else map fst m ++ [k].
 Print Assumptions C18_outline_children_order.
 
+(** ... and for EVERY op sequence that replays, the names in the template-argument map and in the field map of every
+    record / multiclass are pairwise distinct: one outline child per template-argument name and per field name *)
+Theorem C18_outline_children_distinct : forall ops S, run_ops ops = SOk S ->
+  forall s e, get_entry S s = Some e ->
+    NoDup (map fst (p_targs (e_payload e))) /\ NoDup (map fst (p_fields (e_payload e))).
+Proof. exact outline_children_distinct. Qed.
+Check C18_outline_children_distinct : forall ops S, run_ops ops = SOk S ->
+  forall s e, get_entry S s = Some e ->
+    NoDup (map fst (p_targs (e_payload e))) /\ NoDup (map fst (p_fields (e_payload e))).
+Print Assumptions C18_outline_children_distinct.
+
 (** Non-vacuity: a replayable op sequence (the shape of the real log of
     `class A<int x> { int f = x; } defvar v = 1; defset list<A> S = { def d; } multiclass M<int q> {..}`) *)
 Definition ex_ops : list op :=
